@@ -256,8 +256,10 @@ class Run:
             'wall_s': round(time.time() - self.t0, 2),
             'violations': sum(len(o.violations) for o in outs),
         }
-        os.makedirs(os.path.join(VERIF, 'evidence'), exist_ok=True)
-        json.dump(ev, open(os.path.join(VERIF, 'evidence', self.pid + '.json'), 'w'), indent=1, default=str)
+        # a partial run (--only) must not replace the evidence of the full check: it goes to evidence/partial/
+        sub = 'evidence' if not getattr(self, 'partial', False) else os.path.join('evidence', 'partial')
+        os.makedirs(os.path.join(VERIF, sub), exist_ok=True)
+        json.dump(ev, open(os.path.join(VERIF, sub, self.pid + '.json'), 'w'), indent=1, default=str)
 
 
 def smt2_of(constraints):
